@@ -20,6 +20,7 @@
 From Coq Require Import List Permutation.
 From Crusta Require Import Spec.AF Model.Store Model.Equiv Proofs.EncSpec Proofs.EquivBase
   Proofs.EquivProofs Proofs.EquivReduce.
+From Crusta Require Proofs.Clauses2.
 Import ListNotations.
 
 (* (a) soundness of the propagation, for ANY seed list *)
@@ -191,6 +192,25 @@ Example C19_reduced_example_grounded :
   end.
 Proof. vm_compute. repeat split. Qed.
 
+(* "in particular all arguments of the grounded extension together, and all arguments it defeats
+   together", as a statement about the map: any two arguments of the grounded extension G are sent to
+   the same reduced argument, and so are any two arguments attacked by G *)
+Theorem C19_grounded_merged_together : forall F n cls G, compact_af F n -> compute_classes F = Done cls ->
+  gr F G ->
+  (forall x y, In x G -> In y G -> init_to_reduced F cls x = init_to_reduced F cls y) /\
+  (forall x y, (exists g, In g G /\ att F g x) -> (exists g, In g G /\ att F g y) ->
+               init_to_reduced F cls x = init_to_reduced F cls y).
+Proof. exact Clauses2.grounded_merged. Qed.
+
+(* "its two mappings are total and inverse to each other at the level of classes": init_to_reduced is
+   total on the arguments 0..n-1 (it lands on a reduced argument), reduced_to_init is total on the
+   reduced arguments (a non-empty set of arguments), and a is sent to r iff a belongs to the set of r *)
+Theorem C19_maps_total_and_inverse : forall F n cls, compact_af F n -> compute_classes F = Done cls ->
+  (forall a, a < n -> init_to_reduced F cls a < length cls) /\
+  (forall r, r < length cls -> reduced_to_init cls r <> [] /\ forall b, In b (reduced_to_init cls r) -> b < n) /\
+  (forall a r, a < n -> r < length cls -> (init_to_reduced F cls a = r <-> In a (reduced_to_init cls r))).
+Proof. exact Clauses2.maps_inverse. Qed.
+
 Print Assumptions C19_propagate_sound.
 Print Assumptions C19_propagate_conflict.
 Print Assumptions C19_propagate_total.
@@ -207,3 +227,5 @@ Print Assumptions C19_reduced_args.
 Print Assumptions C19_reduced_attacks_exact.
 Print Assumptions C19_reduced_attacks.
 Print Assumptions C19_reduced_init_to_reduced_arg.
+Print Assumptions C19_grounded_merged_together.
+Print Assumptions C19_maps_total_and_inverse.
